@@ -54,8 +54,14 @@ def load_known():
     if os.path.exists(KNOWN_FILE):
         for line in open(KNOWN_FILE, encoding="utf-8"):
             line = line.strip()
-            if line and not line.startswith("#"):
-                out.append(json.loads(line))
+            if not line or line.startswith("#"):
+                continue
+            if line.startswith("fixed:"):
+                # "fixed: property=<id> <commit> <what failed>": a repaired defect -- recorded, suppresses nothing
+                m = line.split()
+                out.append({"property": m[1].split("=", 1)[1] if len(m) > 1 and "=" in m[1] else "", "fixed": line})
+                continue
+            out.append(json.loads(line))
     return out
 
 
